@@ -8,6 +8,18 @@ import os
 HOSTILE = ['..', '../..', '../../../x', '/etc/passwd', '/', '', '.', './..', 'a/../../b', '..\\..\\x', 'x/../../../../y', '2020-01-01',
            '2020-01-01/2020-02-01', 'default', 'a b', '%2e%2e', '....//', 'C:\\x', '\\\\host\\share', 'time-..', '-../..', '..-']
 HOSTILE_KEYS = ['time', 'elevation', 'dim_x', 'dim_/../..', 'dim_..', 'DIM_/abs', 'dim_a/../../b', 'dim_\\..\\..', 'Time']
+# characters a later "clean-up" step might strip or fold: a dot segment disguised with one of them must not become a real one
+NOISE = ['\t', '\x00', '\x01', '\x7f', ' ', '\n', '\r', '\x1f', '\u200b']
+
+
+def hostile_value(rng, pool=None):
+    """a hostile string, possibly with noise characters sprinkled into its dot segments"""
+    v = rng.choice(pool or HOSTILE)
+    if rng.random() < 0.35 and v:
+        for _ in range(rng.randint(1, 3)):
+            i = rng.randint(0, len(v))
+            v = v[:i] + rng.choice(NOISE) + v[i:]
+    return v
 
 
 
@@ -18,7 +30,7 @@ def _gen_tile_loc(gen, rng):
     coord = (rng.choice([0, 5, big]), rng.choice([0, 7, big]), rng.choice([0, 1, 9, 10, 22]))
     d = {}
     for _ in range(rng.randint(0, 2)):
-        d[rng.choice(HOSTILE_KEYS)] = rng.choice(HOSTILE)
+        d[hostile_value(rng, HOSTILE_KEYS)] = hostile_value(rng)
     return {'tile': {'$pyobj': ('mapproxy.cache.tile', 'Tile', [coord])}, 'cache_dir': '/r/cache', 'file_ext': 'png',
             'create_dir': False, 'dimensions': {'$pydict': d} if d else None, 'directory_permissions': None}
 
